@@ -4,6 +4,8 @@
 # simulator against it (for use while a long run is using /repo). Everything lives under /tmp/mwt_$$ and is removed afterwards.
 PATCH="$(readlink -f "$1")"; PROP="$2"; TIER="${3:-quick}"
 W=/tmp/mwt_$$
+cleanup() { cd /; git -C /repo worktree remove --force "$W/repo" 2>/dev/null; rm -rf "$W"; }
+trap cleanup EXIT INT TERM PIPE
 git -C /repo worktree add -q "$W/repo" HEAD || exit 2
 if ! git -C "$W/repo" apply "$PATCH"; then echo "patch does not apply"; git -C /repo worktree remove --force "$W/repo"; rm -rf "$W"; exit 2; fi
 mkdir -p "$W/verif/sim" && cp -r /verif/sim/src /verif/sim/grammar /verif/sim/Cargo.toml /verif/sim/Cargo.lock /verif/sim/.cargo "$W/verif/sim/"
